@@ -98,9 +98,65 @@ def run_pair(spec):
                    witness=r.witness, sample=sample)
 
 
+class TwoMeshEnv(GeomEnv):
+    """Geometry of two distinct meshes with equal coordinate elements: terminals that live on the second mesh are
+    denoted with their own primitive symbols (the side-suffix mechanism of GeomEnv: J00@B, co@B, ...)."""
+
+    def __init__(self, cell, g, second):
+        super().__init__(cell, g, mode="J")
+        self._second = second
+
+    def symbol(self, t, comp, derivs, side):
+        if isinstance(t, (C.SpatialCoordinate, C.GeometricQuantity)) and t.ufl_domain() is self._second:
+            side = "B"
+        return super().symbol(t, comp, derivs, side)
+
+
+def run_two_meshes(spec):
+    """Quantities of two DIFFERENT meshes (same cell, degree, gdim: equal coordinate elements, different ufl_id) lowered in
+    one call: each component must be the quantity of its own mesh (== that quantity lowered alone, which the
+    single-quantity obligations decide against the defining predicates)."""
+    name = spec["name"]
+    cell, g = spec["cell"], spec["gdim"]
+    A, B = mesh(cell, g), mesh(cell, g)
+    doms = {"A": A, "B": B}
+    qs = [getattr(C, qn)(doms[m]) for qn, m in spec["qs"]]
+    sc = [q if q.ufl_shape == () else q[(0,) * len(q.ufl_shape)] for q in qs]
+    try:
+        singles = [lower(q) for q in sc]
+        together = lower(ufl.as_vector(sc))
+    except Exception as ex:
+        return outcome(name, "rejected", detail=f"lowering raised {type(ex).__name__}: {str(ex)[:100]}")
+    sample = f"{spec['qs']} on two {cell} meshes in R^{g} lowered in one expression: {str(together)[:200]}"
+    env = TwoMeshEnv(cell, g, B)
+    den = Denoter(env)
+    try:
+        pairs = [(den.ev(s1, (), {}, (), None), den.ev(together, (k,), {}, (), None)) for k, s1 in enumerate(singles)]
+        diffs = solve.flatten_diffs(pairs)
+        # reachability of the distinction itself: the same quantity on A and on B must NOT be provably equal
+        twin = None
+        if spec.get("twin"):
+            twin = solve.prove_all_zero(solve.flatten_diffs([(den.ev(singles[0], (), {}, (), None),
+                                                              den.ev(lower(getattr(C, spec["qs"][0][0])(B) if qs[0].ufl_shape == () else
+                                                                           getattr(C, spec["qs"][0][0])(B)[(0,) * len(qs[0].ufl_shape)]),
+                                                                     (), {}, (), None))]), timeout=60)
+    except DenotationError as ex:
+        return outcome(name, "inconclusive", detail=f"denotation: {ex}", sample=sample)
+    r = solve.prove_all_zero(diffs, timeout=spec.get("timeout", 120), label=name)
+    ok, bad = solve.discharge_lemmas(timeout=60)
+    st = r.status if not (r.status == "proved" and bad) else "inconclusive"
+    res = [outcome(name, st, stage=r.stage, detail=(r.detail or "") + (" a component takes its geometry from the other mesh" if st == "violated" else ""),
+                   witness=r.witness, sample=sample)]
+    if twin is not None:
+        res.append(outcome(name + "#twin", twin.status, twin=True))
+    return res
+
+
 def run(spec):
     if spec.get("family") == "pair":
         return run_pair(spec)
+    if spec.get("family") == "twomesh":
+        return run_two_meshes(spec)
     name = spec["name"]
     cell, g, qn = spec["cell"], spec["gdim"], spec["q"]
     dom = mesh(cell, g)
@@ -321,6 +377,16 @@ def specs(tier):
         S.append(dict(name=f"pair/all-edge-lengths/{cell}/gdim={g}", family="pair", cell=cell, gdim=g, facet=0, timeout=120,
                       qs=["MaxCellEdgeLength", "CellDiameter", "MinCellEdgeLength"] + (["MaxFacetEdgeLength", "MinFacetEdgeLength"] if t == 3 else []),
                       task_timeout=400))
+    # quantities of two different meshes with equal coordinate elements in one lowering call (round 4)
+    for cell, g in (("triangle", 2), ("tetrahedron", 3), ("triangle", 3)):
+        for a, b in (("CellVolume", "CellVolume"), ("JacobianDeterminant", "CellVolume"), ("Jacobian", "JacobianInverse"),
+                     ("JacobianInverse", "Jacobian"), ("CellDiameter", "MinCellEdgeLength"), ("JacobianDeterminant", "JacobianDeterminant")):
+            for order in ("AB", "BA"):
+                S.append(dict(name=f"twomesh/{a}@{order[0]}+{b}@{order[1]}/{cell}/gdim={g}", family="twomesh", cell=cell, gdim=g,
+                              qs=[(a, order[0]), (b, order[1])], timeout=120, task_timeout=400,
+                              twin=(a == "CellVolume" and b == "CellVolume" and order == "AB" and g == 2)))
+        S.append(dict(name=f"twomesh/three/{cell}/gdim={g}", family="twomesh", cell=cell, gdim=g, timeout=120, task_timeout=400,
+                      qs=[("CellVolume", "B"), ("JacobianDeterminant", "A"), ("CellVolume", "A"), ("JacobianDeterminant", "B")]))
     return S
 
 
